@@ -11,7 +11,9 @@ RULE = ("TLC model-checks RingImpl.tla (go-zero's keys/ring/nodes algorithm) for
         "operation history per distinct reachable implementation state of a collision-rich 3-node ring "
         "(RingImplGen), and each is performed on a fresh real ConsistentHash whose node names make "
         "repr(node)+itoa(i) ambiguous ('n','n1','n11'; 7,71,711; ...); seeded random multi-instance histories over "
-        "string / int / Stringer nodes, all Add* variants, caps 100..250, rebuilds of the same members in another "
+        "string / Stringer / numeric nodes (every Go integer and float type that holds the value, pointers to them; "
+        "numeric families made of the boundary values of the 8/16/32/64-bit types with their two's-complement, truncation "
+        "and magnitude twins, zero, fractions, a number beyond 64 bits), all Add* variants, caps 100..250, rebuilds of the same members in another "
         "order through detours, and cache.New / kv.NewStore clusters on miniredis are added. After every "
         "operation all probe keys (random + keys aimed at shared virtual nodes) are looked up; TLC validates every "
         "recorded trace against Ring.tla. distinct = distinct operation histories executed (generated ones by "
@@ -56,7 +58,13 @@ def _side_validation(run, cfg, trace_file, label, key):
 def check(run):
     thorough = run.tier == "thorough"
     run.assumptions += [
-        "a node is identified by lang.Repr (Add(1) and Add(\"1\") are one node; the later value replaces the earlier)",
+        "a node is identified by its name = what lang.Repr is meant to return: a number's mathematical value in decimal "
+        "whatever its Go type, a string's / Stringer's text (Add(1), Add(uint8(1)), Add(1.0) and Add(\"1\") are one "
+        "node, the later value replaces the earlier; uint64(2^64-7), int64(-7) and 7 are three nodes); the driver "
+        "derives names from the typed values itself (strconv / math/big on the concrete type), not through lang.Repr, "
+        "and maps returned values back by Go equality; Ring.tla ValsOK checks the numbering",
+        "float nodes / keys are restricted to values whose shortest round-trip spelling is the exact decimal expansion "
+        "(integers below 2^24 resp. 2^53, small dyadic fractions, 3e20)",
         "a node added with 0 (or negative) replicas owns no virtual node: it is not 'in the ring', Get answers none "
         "when no member owns one",
         "replica count of AddWithReplicas(r) = min(r, cap), of AddWithWeight(w) = min(cap, cap*w/100), of Add = cap "
@@ -88,6 +96,18 @@ def _design(run, thorough, W):
                       ("RingImplBugDisrupt.cfg", "as found + shared positions: an operation on one node moves keys "
                                                  "between two other nodes")]:
         run.model_check(FAM, "RingImpl", cfg, workers=2, expect="violation", note="documented counterexample: " + what)
+    # node identity: the property's nodes are values (strings, numbers, Stringers); the ring knows them by lang.Repr
+    run.model_check(FAM, "RingRepr", "RingReprMC.cfg", workers=2,
+                    note="lang.Repr's per-type integer formatting (types scaled to 2/3/4 bits, signed + unsigned, plus "
+                         "numeral and non-numeral texts): same representation <=> same node, EVERY pair of values")
+    run.model_check(FAM, "RingImpl", "RingImplBugRepr.cfg", workers=2, expect="violation",
+                    note="documented counterexample: two distinct nodes with one representation (ReprOf = ReprTwin), no "
+                         "shared positions, repaired ring: the later Add evicts the twin / Remove removes the other node")
+    if thorough:
+        for cfg, what in [("RingReprBugWrap.cfg", "unsigned values formatted through the widest signed type: the top half "
+                                                  "of the widest unsigned type wraps to the negative numbers"),
+                          ("RingReprBugNarrow.cfg", "integers formatted through a narrower signed type: truncation twins")]:
+            run.model_check(FAM, "RingRepr", cfg, workers=2, expect="violation", note="documented counterexample: " + what)
     if thorough:
         run.model_check(FAM, "RingImpl", "RingImplFixedMC3.cfg", workers=8,
                         note="repaired, 3 nodes x cap 1, 3 positions, every placement, scores 0..2")
@@ -102,21 +122,25 @@ def _conformance(run, thorough):
     # ---------------------------------------------------------------- spec -> code
     beh = run.generate(FAM, "RingImplGen", "RingImplGen.cfg", workers=1)
     fams = 4 if thorough else 2
+    numfams = 4 if thorough else 1     # numeric node families (boundary values and their twins), 64-bit first
     for b in beh:
-        for f in range(fams):
-            run.distinct.add((f, vlib.distinct_key(b)))
-    run.evaluations += len(beh) * fams
+        for f in range(fams + numfams):
+            if f < fams or thorough or len(b) <= 3:
+                run.distinct.add((f, vlib.distinct_key(b)))
+                run.evaluations += 1
     tr = run.go_driver(PKG, DRV, "TestVerifRingReplay$", inp=beh,
-                       env={"VERIF_RING_FAMILIES": fams, "VERIF_RING_KEYS": 64})
+                       env={"VERIF_RING_FAMILIES": fams, "VERIF_RING_KEYS": 64,
+                            "VERIF_RING_NUMFAMS": numfams, "VERIF_RING_NUMKEYS": 48 if thorough else 24,
+                            "VERIF_RING_NUMMAXLEN": 0 if thorough else 3})
     run.validate(FAM, TR, CFG, tr, label="replay", split=1)
     # ---------------------------------------------------------------- code -> spec: random histories, default hash
     env = {"VERIF_RING_SESSIONS": 150 if thorough else 16, "VERIF_RING_LENGTH": 90 if thorough else 60,
-           "VERIF_RING_KEYS": 128 if thorough else 96}
+           "VERIF_RING_KEYS": 128 if thorough else 96, "VERIF_RING_NUMERIC": 24 if thorough else 4}
     tr = run.go_driver(PKG, DRV, "TestVerifRingRandom$", env=env)
     n0 = run.traces
     run.validate(FAM, TR, CFG, tr, label="random", split=8)
     run.evaluations += run.traces - n0
-    for i in range(env["VERIF_RING_SESSIONS"]):
+    for i in range(env["VERIF_RING_SESSIONS"] + env["VERIF_RING_NUMERIC"]):
         run.distinct.add(("random", run.seed, i))
     # cluster dispatch: cache.New and kv.NewStore on miniredis, compared with bare rings in the same trace
     for pkg, drv, fn in [("core/stores/cache", "zz_verif_ringcache_test.go", "TestVerifRingCache$"),
@@ -144,14 +168,17 @@ def _conformance(run, thorough):
 
 
 LEVEL_TEXT = ("Exhaustive TLC model checking of the ring algorithm for every placement of virtual nodes and keys on small "
-              "rings (2-3 nodes, cap 1-2, 3-6 positions) against the property predicates, plus conformance: one "
-              "history per reachable implementation state replayed on real rings with ambiguous node names, random "
-              "multi-instance histories, cache/kv clusters; every trace validated by TLC against Ring.tla.")
+              "rings (2-3 nodes, cap 1-2, 3-6 positions) against the property predicates, and of the node representation "
+              "(RingRepr: every pair of values of scaled-down signed/unsigned integer types and texts: same representation "
+              "iff same node), plus conformance: one history per reachable implementation state replayed on real rings "
+              "with ambiguous node names and with numeric nodes at the type boundaries, random multi-instance histories "
+              "over string and numeric node families, cache/kv clusters; every trace validated by TLC against Ring.tla.")
 LEVEL_NOTE = ("Trusted: TLC/SANY, the Go toolchain, the driver's mapping of returned Go values to node ids. The real code is "
               "sampled (finite probe-key sets, seeded histories); exhaustive only at design level for small rings. "
               "Custom hash functions and the placement model are checked but are not part of the verdict. "
               "Concurrency (Get during AddWithReplicas' remove-then-add window) is outside the property's quantifier.")
-TECHNIQUE = ("TLA+ specs (RingProps/Ring = property, RingPlace = reference placement, RingImpl = go-zero algorithm), TLC "
+TECHNIQUE = ("TLA+ specs (RingProps/Ring = property, RingPlace = reference placement, RingImpl = go-zero algorithm "
+             "parameterised by the node representation, RingRepr = lang.Repr's integer formatting), TLC "
              "exhaustive check over all placements, TLC-generated state-cover replay + TLC trace validation")
 DESIGN_REF = "DESIGN.md Part B C15"
 
